@@ -1,5 +1,488 @@
 import Pff.Model.Rfigc
-/-! Helper lemmas for C05 / C16 / C17 (hash database tool). -/
+/-! Helper lemmas for C05 / C16 / C17 (hash database tool). Core Lean only. -/
 namespace Pff.Rfigc
+
+/-! ## lookup -/
+
+theorem lookup_some {t : Tree} {p : String} {f : File} (h : lookup t p = some f) :
+    f ∈ t ∧ f.path = p := by
+  unfold lookup at h
+  exact ⟨List.mem_of_find?_eq_some h, by simpa using List.find?_some h⟩
+
+theorem lookup_of_mem_nodup {t : Tree} {f : File} (hnd : (t.map (·.path)).Nodup) (hf : f ∈ t) :
+    lookup t f.path = some f := by
+  induction t with
+  | nil => cases hf
+  | cons g t ih =>
+    simp only [List.map_cons, List.nodup_cons] at hnd
+    simp only [lookup, List.find?_cons]
+    rcases List.mem_cons.1 hf with rfl | hf'
+    · simp
+    · have : g.path ≠ f.path := by
+        intro h; exact hnd.1 (h ▸ List.mem_map_of_mem hf')
+      simp only [this, decide_false]
+      exact ih hnd.2 hf'
+
+/-! ## check mode (C05) -/
+
+theorem rowErrors_ne_nil_iff (E : Env) (o : CheckOpts) (t : Tree) (r : Row) :
+    rowErrors E o t r ≠ [] ↔
+      match lookup t r.path with
+      | none => o.skipMissing = false
+      | some f =>
+        (o.skipHash = false ∧ ((E.H f.content).1 ≠ r.md5 ∨ (E.H f.content).2 ≠ r.sha1)) ∨
+        E.extOf f.path ≠ r.ext ∨ f.content.length ≠ r.size ∨
+        (o.noMtime = false ∧ f.mtime ≠ r.mtime ∧ E.roundSec f.mtime ≠ E.roundSec r.mtime) := by
+  unfold rowErrors
+  cases hl : lookup t r.path with
+  | none => cases o.skipMissing <;> simp
+  | some f =>
+    simp only []
+    by_cases h1 : (E.H f.content).1 = r.md5 <;> by_cases h2 : (E.H f.content).2 = r.sha1 <;>
+    by_cases h3 : E.extOf f.path = r.ext <;> by_cases h4 : f.content.length = r.size <;>
+    cases o.skipHash <;> cases o.noMtime <;> simp [h1, h2, h3, h4]
+
+/-- a fresh row checked against its own file has no error -/
+theorem rowErrors_rowOf_self (E : Env) (o : CheckOpts) (t : Tree) (f : File)
+    (hl : lookup t f.path = some f) : rowErrors E o t (rowOf E f) = [] := by
+  apply Classical.byContradiction
+  intro h
+  have h' := (rowErrors_ne_nil_iff E o t (rowOf E f)).1 h
+  simp [rowOf, hl] at h'
+
+theorem check_clean (E : Env) (o : CheckOpts) (t : Tree) (inp : Input) (hnd : (t.map (·.path)).Nodup) :
+    check E o (genDb E t) t inp = { reported := [], exit := 0 } := by
+  have h : ((genDb E t).filter (concerns inp)).filter (fun r => !(rowErrors E o t r).isEmpty) = [] := by
+    rw [List.filter_eq_nil_iff]
+    intro r hr
+    have hr' := (List.mem_filter.1 hr).1
+    simp only [genDb, List.mem_map] at hr'
+    obtain ⟨f, hf, rfl⟩ := hr'
+    simp [rowErrors_rowOf_self E o t f (lookup_of_mem_nodup hnd hf)]
+  simp only [check, h]
+  rfl
+
+/-- error status of a fresh row of `f` against another tree, in the shape of `changed` (C05) -/
+theorem rowErrors_rowOf_ne_nil_iff (E : Env) (o : CheckOpts) (t' : Tree) (f : File)
+    (hcoll : ∀ f' ∈ t', f.path = f'.path → f'.content ≠ f.content →
+        (E.H f'.content).1 ≠ (E.H f.content).1 ∨ (E.H f'.content).2 ≠ (E.H f.content).2) :
+    (!(rowErrors E o t' (rowOf E f)).isEmpty) =
+      match lookup t' f.path with
+      | none => !o.skipMissing
+      | some f' =>
+        (!o.skipHash && decide (f'.content ≠ f.content)) || decide (f'.content.length ≠ f.content.length) ||
+        (!o.noMtime && decide (f'.mtime ≠ f.mtime) && decide (E.roundSec f'.mtime ≠ E.roundSec f.mtime)) := by
+  rw [Bool.eq_iff_iff]
+  have := rowErrors_ne_nil_iff E o t' (rowOf E f)
+  rw [Bool.not_eq_true', ← Bool.not_eq_true, List.isEmpty_iff, ← ne_eq, this]
+  have hp : (rowOf E f).path = f.path := rfl
+  rw [hp]
+  cases hl : lookup t' f.path with
+  | none => simp
+  | some f' =>
+    obtain ⟨hm, hpath⟩ := lookup_some hl
+    have hc := hcoll f' hm hpath.symm
+    have hh : ((E.H f'.content).1 ≠ (E.H f.content).1 ∨ (E.H f'.content).2 ≠ (E.H f.content).2) ↔
+        f'.content ≠ f.content := by
+      constructor
+      · intro h e; rw [e] at h; simp at h
+      · exact hc
+    simp only [rowOf, hpath, hh]
+    simp [or_assoc, and_assoc]
+
+theorem check_single (E : Env) (o : CheckOpts) (db : List Row) (t : Tree) (n : String) :
+    (check E o db t (.file n)).reported = ((check E o db t .folder).reported).filter (· = n) := by
+  simp only [check, List.filter_map, List.filter_filter]
+  congr 1
+  apply List.filter_congr
+  intro r _
+  simp [concerns, Bool.and_comm]
+
+/-! ## update (C16) -/
+
+theorem lookup_isSome_iff {t : Tree} {p : String} :
+    (lookup t p).isSome = true ↔ p ∈ t.map (·.path) := by
+  unfold lookup
+  simp [List.find?_isSome]
+
+theorem updRemove_spec (db : List Row) (t : Tree) (inp : Input) :
+    (updRemove db t inp).Sublist db ∧
+    (∀ r ∈ db, (lookup t r.path).isSome → r ∈ updRemove db t inp) ∧
+    (∀ r ∈ db, r ∉ updRemove db t inp → (lookup t r.path).isNone ∧ concerns inp r = true) := by
+  refine ⟨List.filter_sublist, ?_, ?_⟩
+  · intro r hr hs
+    simp [updRemove, List.mem_filter, hr, hs]
+  · intro r hr hn
+    simp only [updRemove, List.mem_filter, hr, true_and] at hn
+    cases h1 : concerns inp r <;> cases h2 : lookup t r.path <;> simp [h1, h2] at hn ⊢
+
+/-- the files `updAppend` walks -/
+def walked (t : Tree) : Input → Tree
+  | .folder => t
+  | .file n => t.filter (fun f => f.path = n)
+
+theorem updAppend_eq (E : Env) (db : List Row) (t : Tree) (inp : Input) :
+    updAppend E db t inp =
+      db ++ (((walked t inp).filter (fun f => !(db.map (·.path)).contains f.path)).map (rowOf E)) := by
+  cases inp <;> rfl
+
+theorem mem_walked {t : Tree} {inp : Input} {f : File} :
+    f ∈ walked t inp ↔ f ∈ t ∧ (match inp with | .folder => True | .file n => f.path = n) := by
+  cases inp <;> simp [walked, List.mem_filter]
+
+theorem walked_sublist (t : Tree) (inp : Input) : (walked t inp).Sublist t := by
+  cases inp
+  · exact List.Sublist.refl _
+  · exact List.filter_sublist
+
+theorem updAppend_spec (E : Env) (db : List Row) (t : Tree) (inp : Input)
+    (hdb : (db.map (·.path)).Nodup) (ht : (t.map (·.path)).Nodup) :
+    ∃ new, updAppend E db t inp = db ++ new ∧
+      ((db ++ new).map (·.path)).Nodup ∧
+      (∀ r, r ∈ new ↔ ∃ f ∈ t, r = rowOf E f ∧ f.path ∉ db.map (·.path) ∧
+          (match inp with | .folder => True | .file n => f.path = n)) := by
+  refine ⟨_, updAppend_eq E db t inp, ?_, ?_⟩
+  · rw [List.map_append, List.nodup_append]
+    refine ⟨hdb, ?_, ?_⟩
+    · rw [List.map_map]
+      have : (fun r : Row => r.path) ∘ rowOf E = fun f : File => f.path := rfl
+      rw [this]
+      exact (((List.filter_sublist).trans (walked_sublist t inp)).map _).nodup ht
+    · intro a ha b hb
+      simp only [List.map_map, List.mem_map, List.mem_filter, Function.comp] at hb
+      obtain ⟨f, ⟨_, hf⟩, rfl⟩ := hb
+      intro e
+      subst e
+      simp at hf
+      simp at ha
+      obtain ⟨r, hr, hre⟩ := ha
+      exact hf r hr hre
+  · intro r
+    simp only [List.mem_map, List.mem_filter, mem_walked]
+    constructor
+    · rintro ⟨f, ⟨⟨hf, hm⟩, hc⟩, rfl⟩
+      refine ⟨f, hf, rfl, ?_, hm⟩
+      simpa using hc
+    · rintro ⟨f, hf, rfl, hc, hm⟩
+      refine ⟨f, ⟨⟨hf, hm⟩, ?_⟩, rfl⟩
+      simpa using hc
+
+
+/-- `Consistent` of C16 on the components of a state -/
+def ConsistentP (E : Env) (tree : Tree) (db : List Row) : Prop :=
+  (db.map (·.path)).Nodup ∧ (tree.map (·.path)).Nodup ∧
+  ∀ r ∈ db, ∀ f, lookup tree r.path = some f → core r = core (rowOf E f)
+
+theorem genDb_consistent (E : Env) (t : Tree) (ht : (t.map (·.path)).Nodup) :
+    ConsistentP E t (genDb E t) := by
+  refine ⟨?_, ht, ?_⟩
+  · have : (fun r : Row => r.path) ∘ rowOf E = fun f : File => f.path := rfl
+    rw [genDb, List.map_map, this]
+    exact ht
+  · intro r hr f hl
+    simp only [genDb, List.mem_map] at hr
+    obtain ⟨g, hg, rfl⟩ := hr
+    have := lookup_of_mem_nodup ht hg
+    have hp : (rowOf E g).path = g.path := rfl
+    rw [hp, this] at hl
+    cases hl; rfl
+
+theorem nodup_filter_paths {t : Tree} (q : File → Bool) (ht : (t.map (·.path)).Nodup) :
+    ((t.filter q).map (·.path)).Nodup :=
+  ((List.filter_sublist (p := q)).map _).nodup ht
+
+theorem lookup_filter_ne {t : Tree} {p q : String} {f : File} (ht : (t.map (·.path)).Nodup)
+    (h : lookup (t.filter (fun g => g.path ≠ p)) q = some f) : lookup t q = some f := by
+  obtain ⟨hm, hp⟩ := lookup_some h
+  subst hp
+  exact lookup_of_mem_nodup ht (List.mem_filter.1 hm).1
+
+theorem consistent_add (E : Env) (t : Tree) (db : List Row) (f : File)
+    (h : ConsistentP E t db) (hadm : ∀ r ∈ db, r.path = f.path → core r = core (rowOf E f)) :
+    ConsistentP E (f :: t.filter (fun g => g.path ≠ f.path)) db := by
+  obtain ⟨h1, h2, h3⟩ := h
+  refine ⟨h1, ?_, ?_⟩
+  · rw [List.map_cons, List.nodup_cons]
+    refine ⟨?_, nodup_filter_paths _ h2⟩
+    simp [List.mem_map, List.mem_filter]
+  · intro r hr g hl
+    by_cases hp : f.path = r.path
+    · have : lookup (f :: t.filter (fun g => g.path ≠ f.path)) r.path = some f := by
+        simp [lookup, hp]
+      rw [this] at hl
+      cases hl
+      exact hadm r hr hp.symm
+    · have : lookup (f :: t.filter (fun g => g.path ≠ f.path)) r.path =
+          lookup (t.filter (fun g => g.path ≠ f.path)) r.path := by
+        simp [lookup, hp]
+      rw [this] at hl
+      exact h3 r hr g (lookup_filter_ne h2 hl)
+
+theorem consistent_delete (E : Env) (t : Tree) (db : List Row) (p : String)
+    (h : ConsistentP E t db) : ConsistentP E (t.filter (fun g => g.path ≠ p)) db := by
+  obtain ⟨h1, h2, h3⟩ := h
+  exact ⟨h1, nodup_filter_paths _ h2, fun r hr g hl => h3 r hr g (lookup_filter_ne h2 hl)⟩
+
+theorem consistent_remove (E : Env) (t : Tree) (db : List Row) (inp : Input)
+    (h : ConsistentP E t db) : ConsistentP E t (updRemove db t inp) := by
+  obtain ⟨h1, h2, h3⟩ := h
+  have hs := (updRemove_spec db t inp).1
+  exact ⟨(hs.map _).nodup h1, h2, fun r hr => h3 r (hs.subset hr)⟩
+
+theorem consistent_append (E : Env) (t : Tree) (db : List Row) (inp : Input)
+    (h : ConsistentP E t db) : ConsistentP E t (updAppend E db t inp) := by
+  obtain ⟨h1, h2, h3⟩ := h
+  obtain ⟨new, he, hnd, hnew⟩ := updAppend_spec E db t inp h1 h2
+  rw [he]
+  refine ⟨hnd, h2, ?_⟩
+  intro r hr g hl
+  rcases List.mem_append.1 hr with hr | hr
+  · exact h3 r hr g hl
+  · obtain ⟨f, hf, rfl, -, -⟩ := (hnew r).1 hr
+    have hp : (rowOf E f).path = f.path := rfl
+    rw [hp, lookup_of_mem_nodup h2 hf] at hl
+    cases hl; rfl
+
+theorem consistent_step (E : Env) (s : State) (op : Op) (h : ConsistentP E s.tree s.db)
+    (hadm : match op with
+      | .add f => ∀ r ∈ s.db, r.path = f.path → core r = core (rowOf E f)
+      | _ => True) :
+    ConsistentP E (step E s op).tree (step E s op).db := by
+  cases op with
+  | add f => exact consistent_add E s.tree s.db f h hadm
+  | delete p => exact consistent_delete E s.tree s.db p h
+  | update a r inp =>
+    simp only [step]
+    cases a <;> cases r <;> simp only [if_true, if_false, Bool.false_eq_true]
+    · exact h
+    · exact consistent_remove E _ _ inp h
+    · exact consistent_append E _ _ inp h
+    · exact consistent_append E _ _ inp (consistent_remove E _ _ inp h)
+
+theorem run_cons (E : Env) (s : State) (op : Op) (ops : List Op) :
+    run E s (op :: ops) = run E (step E s op) ops := rfl
+
+theorem run_append_singleton (E : Env) (s : State) (ops : List Op) (op : Op) :
+    run E s (ops ++ [op]) = step E (run E s ops) op := by
+  simp [run, List.foldl_append]
+
+/-- the final `--update -a -r` on the folder of a consistent state gives the fresh database -/
+theorem converge_final (E : Env) (t : Tree) (db : List Row) (h : ConsistentP E t db) :
+    let s := step E { tree := t, db := db } (.update true true .folder)
+    s.tree = t ∧ (s.db.map (·.path)).Nodup ∧
+    ∀ x, x ∈ s.db.map core ↔ x ∈ (genDb E t).map core := by
+  have hc := consistent_remove E t db .folder h
+  obtain ⟨h1, h2, h3⟩ := hc
+  obtain ⟨new, he, hnd, hnew⟩ := updAppend_spec E (updRemove db t .folder) t .folder h1 h2
+  have hdb : (step E { tree := t, db := db } (.update true true .folder)).db =
+      updRemove db t .folder ++ new := he
+  refine ⟨rfl, ?_, ?_⟩
+  · rw [hdb]; exact hnd
+  · intro x
+    rw [hdb]
+    simp only [List.mem_map, genDb, List.mem_append]
+    constructor
+    · rintro ⟨r, hr | hr, rfl⟩
+      · have hs : (lookup t r.path).isSome = true := by
+          simpa [updRemove, concerns] using (List.mem_filter.1 hr).2
+        obtain ⟨f, hf⟩ := Option.isSome_iff_exists.1 hs
+        exact ⟨rowOf E f, ⟨f, (lookup_some hf).1, rfl⟩, (h3 r hr f hf).symm⟩
+      · obtain ⟨f, hf, rfl, -, -⟩ := (hnew r).1 hr
+        exact ⟨rowOf E f, ⟨f, hf, rfl⟩, rfl⟩
+    · rintro ⟨_, ⟨f, hf, rfl⟩, rfl⟩
+      by_cases hp : f.path ∈ (updRemove db t .folder).map (·.path)
+      · obtain ⟨r, hr, hrp⟩ := List.mem_map.1 hp
+        refine ⟨r, Or.inl hr, ?_⟩
+        apply h3 r hr f
+        rw [hrp]
+        exact lookup_of_mem_nodup h2 hf
+      · exact ⟨rowOf E f, Or.inr ((hnew _).2 ⟨f, hf, rfl, hp, trivial⟩), rfl⟩
+
+/-! ## file-scraping recovery (C17) -/
+
+theorem getLast?_mem {α} {l : List α} {a : α} (h : l.getLast? = some a) : a ∈ l := by
+  obtain ⟨ys, rfl⟩ := List.getLast?_eq_some_iff.1 h
+  simp
+
+theorem getLast?_of_forall_eq {α} {l : List α} {w : α} (hall : ∀ x ∈ l, x = w) (hne : l ≠ []) :
+    l.getLast? = some w := by
+  cases h : l.getLast? with
+  | none => exact absurd (List.getLast?_eq_none_iff.1 h) hne
+  | some x => rw [hall x (getLast?_mem h)]
+
+theorem lastIndex_some {keys : List Nat} {k i : Nat} (h : lastIndex keys k = some i) :
+    keys[i]? = some k := by
+  unfold lastIndex at h
+  cases hl : (keys.zipIdx.filter (fun ki => ki.1 = k)).getLast? with
+  | none => simp [hl] at h
+  | some x =>
+    rw [hl] at h
+    simp only [Option.map_some, Option.some.injEq] at h
+    have hx := List.mem_filter.1 (getLast?_mem hl)
+    have h1 := List.mem_zipIdx_iff_getElem?.1 hx.1
+    have h2 : x.1 = k := by simpa using hx.2
+    rw [← h, h1, h2]
+
+theorem lastIndex_unique {keys : List Nat} {k i : Nat} (huniq : ∀ j, keys[j]? = some k → j = i)
+    (hi : keys[i]? = some k) : lastIndex keys k = some i := by
+  unfold lastIndex
+  have hmem : (k, i) ∈ keys.zipIdx.filter (fun ki => ki.1 = k) := by
+    rw [List.mem_filter]
+    exact ⟨List.mem_zipIdx_iff_getElem?.2 hi, by simp⟩
+  have hall : ∀ x ∈ keys.zipIdx.filter (fun ki => ki.1 = k), x = (k, i) := by
+    intro x hx
+    have hx := List.mem_filter.1 hx
+    have h1 := List.mem_zipIdx_iff_getElem?.1 hx.1
+    have h2 : x.1 = k := by simpa using hx.2
+    rw [h2] at h1
+    have := huniq x.2 h1
+    cases x; simp_all
+  rw [getLast?_of_forall_eq hall (List.ne_nil_of_mem hmem)]
+  rfl
+
+theorem genDb_getElem? (E : Env) (orig : Tree) (i : Nat) :
+    (genDb E orig)[i]? = orig[i]?.map (rowOf E) := by
+  simp [genDb]
+
+/-- a recognised content is a recorded one, as soon as its md5 collides with no other recorded
+content -/
+theorem recognise_some {E : Env} {orig : Tree} {c : Bytes} {r : Row}
+    (hc : ∀ f ∈ orig, (E.H f.content).1 = (E.H c).1 → f.content = c)
+    (h : recognise E (genDb E orig) c = some r) : ∃ f ∈ orig, r = rowOf E f ∧ f.content = c := by
+  unfold recognise at h
+  simp only [] at h
+  split at h
+  · rename_i i j hi hj
+    split at h
+    · have hk := lastIndex_some hi
+      rw [List.getElem?_map, genDb_getElem?] at hk
+      rw [genDb_getElem?] at h
+      cases ho : orig[i]? with
+      | none => simp [ho] at h
+      | some f =>
+        rw [ho] at h hk
+        simp only [Option.map_some, Option.some.injEq] at h hk
+        subst h
+        have hf : f ∈ orig := List.mem_of_getElem? ho
+        refine ⟨f, hf, rfl, hc f hf ?_⟩
+        simpa [rowOf] using hk
+    · cases h
+  · cases h
+
+theorem getElem?_unique_of_nodup {α β} (key : α → β) {l : List α} (hnd : (l.map key).Nodup)
+    {i j : Nat} {a b : α} (hi : l[i]? = some a) (hj : l[j]? = some b) (hk : key b = key a) :
+    j = i := by
+  have hlt : i < (l.map key).length := by
+    rw [List.length_map]; exact (List.getElem?_eq_some_iff.1 hi).1
+  have : (l.map key)[i]? = (l.map key)[j]? := by
+    simp [List.getElem?_map, hi, hj, hk]
+  exact ((List.getElem?_inj hlt hnd).1 this).symm
+
+/-- a recorded content is recognised as its own row, when recorded contents are distinct and
+do not collide with it -/
+theorem recognise_known {E : Env} {orig : Tree} {f : File} (hf : f ∈ orig)
+    (hdistinct : (orig.map (·.content)).Nodup)
+    (hc : ∀ g ∈ orig, ((E.H g.content).1 = (E.H f.content).1 ∨ (E.H g.content).2 = (E.H f.content).2) →
+      g.content = f.content) :
+    recognise E (genDb E orig) f.content = some (rowOf E f) := by
+  obtain ⟨i, hi⟩ := List.mem_iff_getElem?.1 hf
+  have h1 : lastIndex ((genDb E orig).map (·.md5)) (E.H f.content).1 = some i := by
+    apply lastIndex_unique
+    · intro j hj
+      rw [List.getElem?_map, genDb_getElem?] at hj
+      cases ho : orig[j]? with
+      | none => simp [ho] at hj
+      | some g =>
+        rw [ho] at hj
+        simp only [Option.map_some, Option.some.injEq, rowOf] at hj
+        exact getElem?_unique_of_nodup (·.content) hdistinct hi ho
+          (hc g (List.mem_of_getElem? ho) (Or.inl hj))
+    · simp [List.getElem?_map, genDb_getElem?, hi, rowOf]
+  have h2 : lastIndex ((genDb E orig).map (·.sha1)) (E.H f.content).2 = some i := by
+    apply lastIndex_unique
+    · intro j hj
+      rw [List.getElem?_map, genDb_getElem?] at hj
+      cases ho : orig[j]? with
+      | none => simp [ho] at hj
+      | some g =>
+        rw [ho] at hj
+        simp only [Option.map_some, Option.some.injEq, rowOf] at hj
+        exact getElem?_unique_of_nodup (·.content) hdistinct hi ho
+          (hc g (List.mem_of_getElem? ho) (Or.inr hj))
+    · simp [List.getElem?_map, genDb_getElem?, hi, rowOf]
+  unfold recognise
+  simp only [h1, h2, if_true, genDb_getElem?, hi, Option.map_some]
+
+
+theorem scrapeWrites_cons_unknown (E : Env) (orig : Tree) (scraped : List Bytes) (c : Bytes)
+    (hcoll : ∀ f ∈ orig, (E.H f.content).1 = (E.H c).1 → f.content = c)
+    (hc : c ∉ orig.map (·.content)) :
+    scrapeWrites E (genDb E orig) (c :: scraped) = scrapeWrites E (genDb E orig) scraped := by
+  have hr : recognise E (genDb E orig) c = none := by
+    cases h : recognise E (genDb E orig) c with
+    | none => rfl
+    | some r =>
+      obtain ⟨f, hf, -, hfc⟩ := recognise_some hcoll h
+      exact absurd (List.mem_map.2 ⟨f, hf, hfc⟩) hc
+  simp [scrapeWrites, hr]
+
+/-- the writes to path `p` -/
+theorem mem_scrapeWrites_path {E : Env} {orig : Tree} {scraped : List Bytes}
+    (hpaths : (orig.map (·.path)).Nodup) (hdistinct : (orig.map (·.content)).Nodup)
+    (hcoll : ∀ a ∈ orig.map (·.content) ++ scraped, ∀ b ∈ orig.map (·.content) ++ scraped,
+      ((E.H a).1 = (E.H b).1 ∨ (E.H a).2 = (E.H b).2) → a = b) (p : String) (w : OutFile) :
+    w ∈ (scrapeWrites E (genDb E orig) scraped).filter (fun w => w.path = p) ↔
+      ∃ f, lookup orig p = some f ∧ f.content ∈ scraped ∧
+        w = { path := p, content := f.content, mtime := f.mtime } := by
+  have hmemc : ∀ f ∈ orig, f.content ∈ orig.map (·.content) ++ scraped := fun f hf =>
+    List.mem_append_left _ (List.mem_map_of_mem hf)
+  simp only [scrapeWrites, List.mem_filter, List.mem_filterMap, Option.map_eq_some_iff,
+    decide_eq_true_eq]
+  constructor
+  · rintro ⟨⟨c, hcs, r, hr, rfl⟩, hp⟩
+    have hcm : c ∈ orig.map (·.content) ++ scraped := List.mem_append_right _ hcs
+    obtain ⟨f, hf, rfl, rfl⟩ := recognise_some
+      (fun f hf e => hcoll _ (hmemc f hf) _ hcm (Or.inl e)) hr
+    simp only [rowOf] at hp
+    subst hp
+    exact ⟨f, lookup_of_mem_nodup hpaths hf, hcs, rfl⟩
+  · rintro ⟨f, hl, hcs, rfl⟩
+    obtain ⟨hf, hp⟩ := lookup_some hl
+    refine ⟨⟨f.content, hcs, rowOf E f, ?_, ?_⟩, rfl⟩
+    · exact recognise_known hf hdistinct
+        (fun g hg e => hcoll _ (hmemc g hg) _ (hmemc f hf) e)
+    · simp [rowOf, hp]
+
+theorem scrapeOutput_spec (E : Env) (orig : Tree) (scraped : List Bytes)
+    (hpaths : (orig.map (·.path)).Nodup) (hdistinct : (orig.map (·.content)).Nodup)
+    (hcoll : ∀ a ∈ orig.map (·.content) ++ scraped, ∀ b ∈ orig.map (·.content) ++ scraped,
+      ((E.H a).1 = (E.H b).1 ∨ (E.H a).2 = (E.H b).2) → a = b) (p : String) :
+    scrapeOutput E (genDb E orig) scraped p =
+      match lookup orig p with
+      | some f => if f.content ∈ scraped then some { path := p, content := f.content, mtime := f.mtime } else none
+      | none => none := by
+  have hm := mem_scrapeWrites_path hpaths hdistinct hcoll p
+  unfold scrapeOutput
+  cases hl : lookup orig p with
+  | none =>
+    simp only []
+    rw [List.getLast?_eq_none_iff, List.eq_nil_iff_forall_not_mem]
+    intro w hw
+    obtain ⟨f, hf, -⟩ := (hm w).1 hw
+    rw [hl] at hf; cases hf
+  | some f =>
+    simp only []
+    by_cases hc : f.content ∈ scraped
+    · rw [if_pos hc]
+      apply getLast?_of_forall_eq
+      · intro w hw
+        obtain ⟨g, hg, -, rfl⟩ := (hm w).1 hw
+        rw [hl] at hg; cases hg; rfl
+      · exact List.ne_nil_of_mem ((hm _).2 ⟨f, hl, hc, rfl⟩)
+    · rw [if_neg hc, List.getLast?_eq_none_iff, List.eq_nil_iff_forall_not_mem]
+      intro w hw
+      obtain ⟨g, hg, hgc, -⟩ := (hm w).1 hw
+      rw [hl] at hg; cases hg
+      exact hc hgc
 
 end Pff.Rfigc
